@@ -74,3 +74,45 @@ Definition uri_into_optlist_k (k : Z) (u : uri_parts) (dst : option bytes) (crea
   if 0 <? len (up_query u) then uri_query_into_optlist (up_query u) 15 c2 else UOk c2.
 
 Definition uri_into_optlist := uri_into_optlist_k uri_UNIX_K.
+
+(* ---- coap_address_set_unix_domain (src/coap_address.c): the Unix-domain host of a URI becomes
+   sun_path, "%2F"/"%2f" decoded to '/', everything else copied; reads of host[i+1], host[i+2]
+   are guarded by "(host_len - i) >= k" (k = 3).  [h] = suffix of the host at i, [rem] = host_len - i.
+   Result: the bytes stored before the terminating NUL (at most pmax - 1, pmax = COAP_UNIX_PATH_MAX). *)
+Fixpoint uri_unix_decode (k : Z) (h : bytes) (rem : Z) : uri_res bytes :=
+  if rem =? 0 then UOk [] else
+  match h with
+  | [] => UOob
+  | c :: h1 =>
+      ulet esc <- (if (k <=? rem) && (c =? 37) then
+                     ulet c1 <- uri_rd h1 0 ;;
+                     if c1 =? 50 then ulet c2 <- uri_rd h1 1 ;; UOk ((c2 =? 70) || (c2 =? 102))
+                     else UOk false
+                   else UOk false) ;;
+      if (esc : bool) then
+        match h1 with
+        | _ :: _ :: h3 => ulet r <- uri_unix_decode k h3 (rem - 3) ;; UOk (47 :: r)
+        | _ => UOob
+        end
+      else ulet r <- uri_unix_decode k h1 (rem - 1) ;; UOk (c :: r)
+  end.
+
+Definition uri_unix_path_k (k pmax : Z) (host : bytes) : uri_res bytes :=
+  ulet d <- uri_unix_decode k host (len host) ;;
+  (* the loop stops when pmax bytes are stored, the last of them is overwritten by NUL;
+     what a reader of the C string sees also ends at the first NUL byte of the host *)
+  UOk (uri_upto (fun c => c =? 0) (take (pmax - 1) d)).
+Definition uri_unix_path := uri_unix_path_k 3.
+
+(* specification: only a complete "%2F" / "%2f" is an escape *)
+Fixpoint uri_unix_pure (h : bytes) : bytes :=
+  match h with
+  | [] => []
+  | c0 :: r0 =>
+      match r0 with
+      | c1 :: c2 :: r2 =>
+          if (c0 =? 37) && (c1 =? 50) && ((c2 =? 70) || (c2 =? 102)) then 47 :: uri_unix_pure r2
+          else c0 :: uri_unix_pure r0
+      | _ => c0 :: uri_unix_pure r0
+      end
+  end.
